@@ -49,6 +49,9 @@ func NewSparseConstInt8Vector(indices []int, values []int8, n int) SparseConstIn
   r.indices = indices[0:0]
   r.values = make([]int8, 0, len(values))
   for i, k := range indices {
+    if k < 0 {
+      panic("negative index")
+    }
     if k >= n {
       panic("index larger than vector dimension")
     }
